@@ -193,6 +193,7 @@ def eviction_predicates(F, R):
 
 
 def check(F, R, tier):
+    lib.slot_loops_cover_all_slots(R, F, r'^iceoryx2::port::details::sender::', 3, 'every connected receiver is served / reclaimed')
     # the delivery path runs over the two index queues named in this property's anchors: their publish/consume ordering floors and slot
     # access order (C03's rules) are necessary for "byte identical, at most once" and are evaluated here as well
     from . import C03
